@@ -395,6 +395,14 @@ func (o *operation) validate(transcoder *Transcoder) error {
 	// Identify the protocol.
 	clientProtoHandler, queryVars := classifyRequest(o.request)
 	if clientProtoHandler == nil {
+		if !transcoder.hasEndpoint(o.request) {
+			// Not a request for anything configured here, whatever it is.
+			// (Nothing has been touched yet: the headers and the declared
+			// length are the original ones.)
+			o.originalHeaders = o.request.Header
+			o.contentLen = o.request.ContentLength
+			return errNotFound
+		}
 		return newHTTPError(http.StatusUnsupportedMediaType, "could not classify protocol")
 	}
 	o.client.protocol = clientProtoHandler
@@ -677,6 +685,19 @@ var errExtraRequestMessage = errors.New("method takes a single request message, 
 // protocol has no envelopes, so the messages would run together into one body.
 func (o *operation) extraRequestMessage() bool {
 	return o.serverEnveloper == nil && o.methodConf.streamType&connect.StreamTypeClient == 0
+}
+
+// hasEndpoint reports whether the request's path is one of the configured
+// methods or matches a REST route, for any HTTP method. It is used for requests
+// that fit no protocol: on a configured path that is a client error, anywhere
+// else the request is simply not for this transcoder (and goes to the
+// unknown-endpoint handler, if there is one).
+func (t *Transcoder) hasEndpoint(req *http.Request) bool {
+	if _, ok := t.methods[req.URL.Path]; ok {
+		return true
+	}
+	target, _, methods := t.restRoutes.match(req.URL.EscapedPath(), req.Method)
+	return target != nil || len(methods) > 0
 }
 
 func (o *operation) resolveMethod(transcoder *Transcoder) error {
